@@ -529,6 +529,19 @@ func c08Judge(r *evid.Run, idx int, class, rendering, s string, genAST xast.Expr
 					}
 				}
 			}
+			// '/*' at the start of an operand read as (/) * where a multiplicative operator follows
+			// (the ambiguity of finding grammar-slash-star, seen from a valid expression)
+			for _, loc := range reSlashStar.FindAllStringIndex(s, -1) {
+				m := s[loc[0]:loc[1]]
+				s2 := s[:loc[0]] + m[:strings.Index(m, "/")] + "(/)*" + s[loc[1]:]
+				if ast2, perr2 := refparse.Parse(s2); perr2 == nil {
+					mv2, me2 := c08Model(ast2)
+					if c08Agree(lib, mv2, me2, false) == "" && known([]string{"grammar-slash-star"}, msg) {
+						sig("known")
+						return
+					}
+				}
+			}
 			viol("structure", msg)
 			return
 		}
@@ -658,9 +671,9 @@ func c08Case(r *evid.Run, tier string, idx int, g *rng.R) {
 		default:
 			e = gen.Expr(xast.Type(g.Intn(4)), 0)
 		}
-		min := xast.String(e)
-		full := xast.Render(e, xast.RenderOpts{FullParens: true})
-		spaced := xast.Render(e, xast.RenderOpts{WS: wsFn})
+		min := xast.Render(e, xast.RenderOpts{SlashStarRaw: true})
+		full := xast.Render(e, xast.RenderOpts{FullParens: true, SlashStarRaw: true})
+		spaced := xast.Render(e, xast.RenderOpts{WS: wsFn, SlashStarRaw: true})
 		c08Judge(r, idx, "generated", "minimal", min, e)
 		c08Judge(r, idx, "generated", "full-parens", full, e)
 		c08Judge(r, idx, "generated", "whitespace", spaced, e)
